@@ -108,6 +108,11 @@ func (t *Transfer) inAxfr(q *Msg, c chan *Envelope) {
 			c <- &Envelope{in.Answer, ErrId}
 			return
 		}
+		if !first && in.Rcode != RcodeSuccess {
+			// An error can be signalled in any message of the transfer, not only the first.
+			c <- &Envelope{in.Answer, &Error{err: fmt.Sprintf(errXFR, in.Rcode)}}
+			return
+		}
 		if first {
 			if in.Rcode != RcodeSuccess {
 				c <- &Envelope{in.Answer, &Error{err: fmt.Sprintf(errXFR, in.Rcode)}}
